@@ -105,6 +105,7 @@ def run(ctx: Ctx):
     ctx.ob("C10-O3", "R18 table", f, "working matrix side is max(rows, cols)", len(nd) == 1 and ast.unparse(nd[0]) in ("max(n_rows, n_cols)", "max(n_cols, n_rows)"), "", node=f.node)
     copies = [n for n in own_nodes(f.node) if isinstance(n, ast.Assign) and ast.unparse(n.targets[0]) == f"{wm}[i][j]" and ast.unparse(n.value) == f"{user}[i][j]"]
     ctx.ob("C10-O3", "R18 table", f, "real cells are copied from the user's matrix at the same position", len(copies) == 1, "", node=f.node)
+    ctx.step(check_work_matrix_fixed)
     ctx.step(check_dual_update)
     # O5 running minima of the search are exact: `if X < Y: Y = X` with no tolerance on either side
     n_min = 0
@@ -131,6 +132,27 @@ def run(ctx: Ctx):
     ctx.step(_need, "C10-O6", "R18 table", f, "potentials, match table and path table cover the n columns plus the virtual column 0", ["row_potential = [0.0] * (n + 1)\n    col_potential = [0.0] * (n + 1)\n    col_match = [0] * (n + 1)\n    augment_path = [0] * (n + 1)"])
     ctx.step(_need, "C10-O6", "R1 STATUS-GUARD", f, "a matrix without rows or without columns leaves every row (if any) unassigned: one -1 per row", ["if not cost_matrix or not cost_matrix[0]:\n        return Result([-1] * len(cost_matrix), 0.0, 0, 0)", "n_rows = len(cost_matrix)\n    n_cols = len(cost_matrix[0])"])
     generic_sweeps(ctx)
+
+
+def check_work_matrix_fixed(ctx: Ctx):
+    """The potentials carry all reductions; the work matrix itself holds the (padded, possibly flipped) costs from
+    its construction on: cells are assigned from the caller's matrix, a constant or `max_val - cost`, never updated
+    in place (a row / column reduction that treats padding differently from real cells changes which rows are
+    cheapest to leave unassigned)."""
+    f = ctx.func("hungarian", "solve_hungarian")
+    bad = []
+    n_cells = 0
+    for n in own_nodes(f.node):
+        tg = n.targets if isinstance(n, ast.Assign) else ([n.target] if isinstance(n, ast.AugAssign) else [])
+        for t_ in tg:
+            if isinstance(t_, ast.Subscript) and isinstance(t_.value, ast.Subscript) and isinstance(t_.value.value, ast.Name) and t_.value.value.id == "matrix":
+                n_cells += 1
+                v_ = n.value
+                ok_ = isinstance(n, ast.Assign) and (isinstance(v_, ast.Constant) or "cost_matrix" in names_in(v_))
+                if not ok_:
+                    bad.append(n)
+    ctx.floor("cell stores of the work matrix", n_cells, 2)
+    ctx.ob("C10-O3", "R27 WRITE-OWNERSHIP", f, "cells of the work matrix are assigned from the caller's matrix (or a constant) and never updated in place", not bad, f"`{ast.unparse(bad[0])[:60]}`" if bad else "", node=bad[0] if bad else f.node)
 
 
 def check_dual_update(ctx: Ctx):
@@ -279,7 +301,17 @@ def _v_skip_update_on_padding_column(tree):
     raise M.Skip("search loop not found")
 
 
+def _v_row_column_reduction_presolve(tree):
+    g = M.find_func(tree, "solve_hungarian")
+    k = [i for i, st in enumerate(g.body) if isinstance(st, ast.Assign) and M.src_is(st.targets[0], "row_potential")]
+    if not k:
+        raise M.Skip("row_potential not found")
+    g.body[k[0]:k[0]] = M.stmts("for i in range(n_rows):\n    row_min = min(matrix[i])\n    if row_min:\n        for j in range(n_cols):\n            matrix[i][j] -= row_min")
+
+
 VARIANTS = [
+    M.Variant("row reduction presolve over the real cells only (seed C10-Q)", HU, _v_row_column_reduction_presolve, "C10-O3"),
+
     M.Variant("the search leaves for a free padding column before the dual update of that step (seed C10-O)", HU, _v_skip_update_on_padding_column, "C10-O4"),
     M.Variant("a matrix without columns gives the empty assignment instead of one -1 per row (original defect)", HU, _v_zero_columns_empty_assignment, "C10-O6"),
     M.Variant("objective summed from the padded/reflected working copy", HU, _v_objective_from_working, "C10-O1"),
